@@ -12,3 +12,11 @@ from .net import *
 from .pub import *
 
 from ._generated import *
+
+# The star-imports above also copy module attributes of the generated packages, which would shadow
+# the submodules of the same name. Bind the real submodules last.
+import sys as _sys
+
+map = _sys.modules[__name__ + ".map"]
+net = _sys.modules[__name__ + ".net"]
+pub = _sys.modules[__name__ + ".pub"]
